@@ -25,7 +25,8 @@ Record snap := mkSnap {
   sn_legacy : list (N * N * N);
   sn_bridges_pg : list (N * N * N * N);            (* block, pos, tag, dc ; deposit_count DESC *)
   sn_claims_pg : list (N * N * N);
-  sn_proofs : list proofobs }.
+  sn_proofs : list proofobs;
+  sn_extra : list N }.                             (* digests of further facade answers; compared with the twin only (not modelled) *)
 
 Record bcase := mkCase {
   c_ops : list op; c_res : list N; c_snaps : list snap; c_leaves : list N;
@@ -51,7 +52,8 @@ Definition snap_query_eqb (a b : snap) : bool :=
   Bool.eqb (sn_bridges_err a) (sn_bridges_err b) &&
   list_eqb n3_eqb (sn_claims a) (sn_claims b) && list_eqb n3_eqb (sn_tm a) (sn_tm b) &&
   list_eqb n3_eqb (sn_legacy a) (sn_legacy b) && list_eqb n4_eqb (sn_bridges_pg a) (sn_bridges_pg b) &&
-  list_eqb n3_eqb (sn_claims_pg a) (sn_claims_pg b) && list_eqb proofobs_eqb (sn_proofs a) (sn_proofs b).
+  list_eqb n3_eqb (sn_claims_pg a) (sn_claims_pg b) && list_eqb proofobs_eqb (sn_proofs a) (sn_proofs b) &&
+  list_eqb N.eqb (sn_extra a) (sn_extra b).
 Definition snap_eqb (a b : snap) : bool := snap_query_eqb a b && Z.eqb (sn_memlast a) (sn_memlast b).
 
 (* ---------- the model's snapshot, taken at the points the implementation was observed ---------- *)
@@ -63,7 +65,7 @@ Definition row3 (r : row) := (w_block r, w_pos r, w_tag r).
 Definition model_snap (st : bstate) (lastleaf : N -> option N) (obs : snap) : snap :=
   let d := st_db st in
   (* a halted syncer answers every query, GetLastProcessedBlock included, with the inconsistency error (observed as 0) *)
-  if st_halted st then mkSnap 0 true (m_last (st_mem st)) [] [] false [] [] [] [] [] [] else
+  if st_halted st then mkSnap 0 true (m_last (st_mem st)) [] [] false [] [] [] [] [] [] (sn_extra obs) else
   let last := last_processed d in
   mkSnap last false (m_last (st_mem st))
     (map (fun o => (fst o, option_map (fun r => (r_hash r, r_block r, r_bpos r)) (root_by_index (d_tree d) (fst o)))) (sn_roots obs))
@@ -79,7 +81,8 @@ Definition model_snap (st : bstate) (lastleaf : N -> option N) (obs : snap) : sn
                    mkPO (po_root o) (po_idx o) sibs
                         (option_map (fun lf => calculate_root lf sibs (po_idx o)) (lastleaf (po_idx o)))
                         (option_map r_pos (root_by_hash (d_tree d) (po_root o))))
-         (sn_proofs obs)).
+         (sn_proofs obs))
+    (sn_extra obs).
 
 (* sync.EVMDriver.handleNewBlock over a buffer of downloaded blocks: ErrInconsistentState => the downloader is cancelled but the
    blocks already buffered are still consumed; any other error => the same block is retried (the injected fault is transient,
